@@ -1,3 +1,144 @@
-From Coq Require Import List.
-Require Import AOV.base.Num AOV.model.Compress.
-Theorem C18_placeholder : True. Proof. exact I. Qed.
+(* C18 -- Profile compression conserves the turbulence it compresses.
+   Model: coq/model/Compress.v (hand-written: slab edges + digitize assignment of equivalent_layers; contiguous
+   groupings, cost, vicinity, local search with 200 iterations and restarts of optimal_grouping), tied to
+   aotools/turbulence/profile_compression.py by the correspondence check (harness/pC18.py; equivalent_layers
+   bit-exactly, optimal_grouping with the restarts recorded from numpy.random.choice). *)
+From Coq Require Import Reals Arith List Sorted PrimFloat.
+Require Import AOV.base.Num AOV.base.NumR AOV.base.NumF AOV.model.Compress AOV.proofs.C18_proofs AOV.proofs.C18_float.
+Import ListNotations.
+Local Open Scope R_scope.
+
+(* ---- equivalent layers ---- *)
+(* exactly L layers, for every carrier (hence for the binary64 execution) and every input *)
+Theorem C18_el_returns_exactly_L_layers : forall T (O : NumOps T) h p w L,
+  List.length (equivalent_layers O h p w L) = L.
+Proof. intros. apply el_length. Qed.
+
+(* no layer of the input is ever dropped: every slab index lies in 1..L.  The upper bound needs no arithmetic
+   law at all (there are exactly L edges), so it also holds for the rounded execution *)
+Theorem C18_el_no_index_above_L_any_carrier : forall T (O : NumOps T) (h : list T) L,
+  Forall (fun i => (i <= L)%nat) (el_ix O h L).
+Proof. intros. apply el_ix_le_L. Qed.
+
+Theorem C18_el_no_layer_dropped : forall G K (h p : list R) L,
+  (1 <= L)%nat -> List.length h = List.length p ->
+  Forall (fun i => (1 <= i <= L)%nat) (el_ix (ROps G K) h L) /\ kept (el_ix (ROps G K) h L) p L = p.
+Proof. intros; split; [apply el_ix_in_range|apply el_no_layer_dropped]; assumption. Qed.
+Print Assumptions C18_el_no_layer_dropped.
+
+(* total Cn2 conserved exactly, for any profile (any heights, any strengths, any L >= 1) *)
+Theorem C18_el_conserves_total : forall G K (h p w : list R) L,
+  (1 <= L)%nat -> List.length h = List.length p ->
+  nsum (ROps G K) (map ent1 (equivalent_layers (ROps G K) h p w L)) = nsum (ROps G K) p.
+Proof. intros; apply el_total_unconditional; assumption. Qed.
+Print Assumptions C18_el_conserves_total.
+
+(* non-negative strengths *)
+Theorem C18_el_strengths_nonnegative : forall G K (h p w : list R) L,
+  Forall (fun x => 0 <= x) p -> Forall (fun e => 0 <= ent1 e) (equivalent_layers (ROps G K) h p w L).
+Proof. intros; apply el_nonneg; assumption. Qed.
+
+(* the 5/3 height moment (isoplanatic angle) and the 5/3 wind moment (coherence time) are conserved, for
+   non-negative strengths; empty slabs contribute 0 on both sides *)
+Theorem C18_el_conserves_five_thirds_moments : forall G K (h p w : list R) L,
+  (1 <= L)%nat -> List.length h = List.length p -> List.length w = List.length p -> Forall (fun x => 0 <= x) p ->
+  nsum (ROps G K) (map (fun e => ent1 e * Rpower (ent0 e) (5/3)) (equivalent_layers (ROps G K) h p w L))
+  = nsum (ROps G K) (map2 (fun a b => a * Rpower b (5/3)) p h)
+  /\
+  nsum (ROps G K) (map (fun e => ent1 e * Rpower (ent2 e) (5/3)) (equivalent_layers (ROps G K) h p w L))
+  = nsum (ROps G K) (map2 (fun a b => a * Rpower b (5/3)) p w).
+Proof. intros; split; [apply el_moment53|apply el_wind53]; assumption. Qed.
+Print Assumptions C18_el_conserves_five_thirds_moments.
+
+(* ... and the non-negativity of the strengths cannot be dropped from that statement *)
+Theorem C18_el_moments_need_nonnegative_strengths : forall G K,
+  exists (h p w : list R) (L : nat),
+    List.length h = List.length p /\ List.length w = List.length p /\
+    Forall (fun i => (1 <= i <= L)%nat) (el_ix (ROps G K) h L) /\
+    Forall (fun e => 0 < ent1 e) (equivalent_layers (ROps G K) h p w L) /\
+    Forall (fun x => 0 < x) h /\ Forall (fun x => 0 < x) w /\
+    nsum (ROps G K) (map (fun e => ent1 e * Rpower (ent0 e) (5/3)) (equivalent_layers (ROps G K) h p w L))
+    <> nsum (ROps G K) (map2 (fun a b => a * Rpower b (5/3)) p h).
+Proof. intros; apply el_moment53_refuted. Qed.
+
+(* regression witnesses at binary64 for the inputs on which the code used to lose the top layer (fixed f325263) *)
+Theorem C18_el_edge_sensitive_profiles_at_binary64 :
+  map (fun NL => el_total_strength (fst NL) (snd NL))
+      [(200, 7); (151, 7); (200, 9); (200, 11); (200, 13); (100, 7); (100, 9); (100, 11); (100, 13); (151, 9); (151, 11); (151, 13)]%nat
+  = [200; 151; 200; 200; 200; 100; 100; 100; 100; 151; 151; 151]%float.
+Proof. exact el_conserved_cases. Qed.
+
+(* ---- optimal grouping ---- *)
+(* groups built from strictly increasing in-range splits partition 0..N-1 into non-empty consecutive groups *)
+Theorem C18_og_groups_partition_the_layers : forall splits N,
+  splits <> [] -> StronglySorted lt splits -> Forall (fun s => (s < N - 1)%nat) splits ->
+  concat (convert_splits_to_groups splits N) = seq 0 N /\
+  Forall (fun g => g <> []) (convert_splits_to_groups splits N) /\
+  List.length (convert_splits_to_groups splits N) = (List.length splits + 1)%nat.
+Proof. exact groups_partition. Qed.
+
+(* every move of the local search keeps a grouping valid: strictly increasing, in range, same number of splits *)
+Theorem C18_og_moves_keep_groupings_valid : forall g N,
+  StronglySorted lt g -> Forall (fun x => (x < N - 1)%nat) g ->
+  forall v, In v (vicinity g N) ->
+    StronglySorted lt v /\ List.length v = List.length g /\ Forall (fun x => (x < N - 1)%nat) v.
+Proof. exact vicinity_invariant. Qed.
+
+(* total Cn2 conserved exactly, whatever the random restarts (any list of valid start groupings) *)
+Theorem C18_og_conserves_total : forall G K starts L (h p : list R),
+  (2 <= L)%nat -> (L < List.length p)%nat -> Forall (fun s => Inv (List.length p) s /\ s <> []) starts ->
+  nsum (ROps G K) (snd (optimal_grouping (ROps G K) starts L h p)) = nsum (ROps G K) p.
+Proof. intros; apply og_total_Inv; assumption. Qed.
+Print Assumptions C18_og_conserves_total.
+
+(* returned heights are heights of the input *)
+Theorem C18_og_heights_are_input_heights : forall T (O : NumOps T) (h p : list T) groups,
+  Forall (fun g => g <> [] /\ Forall (fun k => (k < List.length h)%nat) g) groups ->
+  Forall (fun x => In x h) (hmin_of O h p groups).
+Proof. intros; apply hmin_members; assumption. Qed.
+
+(* exactly L layers (any carrier), heights that are input heights in strictly increasing order, non-negative strengths *)
+Theorem C18_og_returns_exactly_L_layers : forall T (O : NumOps T) starts L (h p : list T),
+  (2 <= L)%nat -> (L < List.length p)%nat ->
+  Forall (fun s => Inv (List.length p) s /\ List.length s = (L - 1)%nat) starts ->
+  List.length (fst (optimal_grouping O starts L h p)) = L /\ List.length (snd (optimal_grouping O starts L h p)) = L.
+Proof. intros; apply og_returns_L_layers; assumption. Qed.
+
+Theorem C18_og_heights_are_input_heights_in_increasing_order : forall G K starts L (h p : list R),
+  (2 <= L)%nat -> (L < List.length p)%nat ->
+  Forall (fun s => Inv (List.length p) s /\ List.length s = (L - 1)%nat) starts ->
+  List.length h = List.length p -> StronglySorted Rlt h ->
+  Forall (fun x => In x h) (fst (optimal_grouping (ROps G K) starts L h p)) /\
+  StronglySorted Rlt (fst (optimal_grouping (ROps G K) starts L h p)).
+Proof. intros; apply og_heights_members_increasing; assumption. Qed.
+Print Assumptions C18_og_heights_are_input_heights_in_increasing_order.
+
+Theorem C18_og_strengths_nonnegative : forall G K starts L (h p : list R),
+  Forall (fun x => 0 <= x) p -> Forall (fun x => 0 <= x) (snd (optimal_grouping (ROps G K) starts L h p)).
+Proof. intros; apply og_strengths_nonneg; assumption. Qed.
+
+(* the cost of the result is no worse than that of the equal split, for any restarts; the local search never
+   increases the cost, for any number of iterations *)
+Theorem C18_og_cost_no_worse_than_equal_split : forall G K starts L (h p : list R),
+  (1 <= L)%nat -> (L < List.length p)%nat ->
+  snd (og_best (ROps G K) starts L h p)
+  <= Gcost (ROps G K) h p (convert_splits_to_groups (equal_split (List.length p) L) (List.length p)).
+Proof. intros; apply og_cost_le_equal_split'; assumption. Qed.
+Print Assumptions C18_og_cost_no_worse_than_equal_split.
+
+Theorem C18_og_local_search_never_increases_cost : forall G K (h p : list R) N fuel g, Inv N g ->
+  snd (opt_min (ROps G K) fuel h p N g) <= Gcost (ROps G K) h p (convert_splits_to_groups g N).
+Proof. intros; apply opt_min_monotone; assumption. Qed.
+
+(* the clause "exactly L layers" fails for L = 1 on the faithful model: no layer at all is returned (known finding) *)
+Theorem C18_og_single_layer_refuted : forall T (O : NumOps T) (h p : list T),
+  optimal_grouping O [] 1 h p = ([], []).
+Proof. intros; apply og_L1_refuted. Qed.
+
+(* the hypotheses above are satisfiable: 5 layers into 2, one valid restart *)
+Example C18_nonvacuous :
+  Inv 5 [2%nat] /\ Inv 5 (equal_split 5 2) /\ (2 <= 2)%nat /\ (2 < 5)%nat /\ StronglySorted lt [1%nat; 3%nat].
+Proof.
+  repeat apply conj; try (repeat constructor; fail); try (apply equal_split_Inv; repeat constructor).
+  all: unfold Inv; repeat apply conj; repeat constructor.
+Qed.
